@@ -165,12 +165,12 @@ ADD3 = {
 }
 # second build round: rules added per property; the shared clauses are appended from sa/imports.py below
 ADD4 = {
- 'C01': ('', 'Also: a view handed out through (&data, &len) - the consolidated line - is never lengthened by hand.'),
+ 'C01': ('belief rule: what a function frees on one exit it frees (or hands on) on every exit', 'Also: a view handed out through (&data, &len) - the consolidated line - is never lengthened by hand; positions and lengths kept in parser state records are not narrowed; a local that a function releases on one of its exits is released, stored, returned or handed to a keeper on every exit.'),
  'C02': ('sibling agreement of the passes of a two-pass scanner (iteration-path signatures)', 'Also: the measuring pass and the copying pass over a quoted string step over an escape the same way; the header line parked for a possible continuation is processed before the header state is left (D43 found, replayed, repaired).'),
- 'C03': ('', 'Also: a state function that consumed a consolidated line clears the line buffer before it consolidates again (D42 found here and by C06.i, replayed, repaired).'),
- 'C05': ('', 'Also: no function reaches htp_tx_finalize twice for one transaction on one path; the function that runs a TRAILER hook flushes that stage\'s data receiver before it returns.'),
- 'C06': ('', 'Also: no path counts a line in *_message_len and then un-reads it (D42: 34 wire bytes reported as 42; replayed, repaired); a framing line that is consumed has been counted on that path.'),
- 'C07': ('', 'Also: an LZMA decoder is set up only under lzma_memlimit > 0 and response_lzma_layer_limit > 0; the Content-Encoding token scanner reads its separators as a set of characters.'),
+ 'C03': ('who-may-write rule for the carry buffers', 'Also: a state function that consumed a consolidated line clears the line buffer before it consolidates again (D42 found here and by C06.i, replayed, repaired); only the buffering helpers store to, free or reallocate the carry buffers.'),
+ 'C05': ('who-may tables (callers of htp_tx_finalize; writers of each progress phase)', 'Also: no function reaches htp_tx_finalize twice for one transaction on one path, and only functions that have just completed a side call it; the function that runs a HEADERS or TRAILER hook has flushed that stage\'s data receiver and runs the hook on every successful path; each progress phase is stored only by the states that begin that part of the message.'),
+ 'C06': ('', 'Also: no path counts a line in *_message_len and then un-reads it (D42: 34 wire bytes reported as 42; replayed, repaired); a framing line that is consumed has been counted on that path; the chunk-length probe judges the line from its first byte, not the byte at hand; the hand-over functions never branch on a hook field.'),
+ 'C07': ('', 'Also: an LZMA decoder is set up only under lzma_memlimit > 0 and response_lzma_layer_limit > 0; the Content-Encoding token scanner reads its separators as a set of characters and each token is scanned once (D46 found, replayed, repaired); the retry ladder of the decompressor is not cut short by a look at the payload; the gzip header probe answers 0 when the header is not complete in the chunk; configured limits are clamped to the range of their field before they are narrowed.'),
  'C08': ('', 'Also: beyond the repetition cap a repeated header line never reads through the stored value again.'),
  'C09': ('', 'Also: a request-side transition called from the response side (and vice versa) is guarded by that direction\'s status != ERROR and != STOP (D44 found, replayed: three request callbacks after HTP_STREAM_ERROR; repaired).'),
  'C11': ('', 'Also: the list-member matcher of htp_header_has_token resets its comparison offset whenever it gives up on a member; the field name is trimmed in a loop in both generic header parsers.'),
@@ -178,7 +178,7 @@ ADD4 = {
  'C13': ('', 'Also: what the authority splitter hands out (host, port text, port number) is stored on every successful path of htp_parse_uri_hostport; the hybrid setters store exactly the (pointer, length) they are given.'),
  'C14': ('', 'Also: a look-ahead data[pos + k] in htp_mpartp_parse raises no flag and stores no state on the paths where that byte is not in this chunk.'),
  'C15': ('', 'Also: the decode switch of the urlencoded parser is written only by its constructor / setter, never by the code that feeds it.'),
- 'C16': ('', 'Also: both FINALIZE states reach a completion call only on a closed stream or after the look-ahead; the CONNECT wait gate is keyed on response_progress; no transaction is created by the response side while the request side is parked on a CONNECT (D45 found, replayed, recorded).'),
+ 'C16': ('', 'Also: both FINALIZE states reach a completion call only on a closed stream or after the look-ahead; the CONNECT wait gate is keyed on response_progress; no transaction is created by the response side while the request side is parked on a CONNECT (D45 found, replayed, recorded); only the CONNECT states suspend and only the CONNECT check enters the body decision, on the method alone; method names are compared byte for byte.'),
  'C17': ('', 'Also: every substring search advances its start position by exactly one per attempt; no numeric parser leaves a scan of the text because a subscript cursor reached a constant.'),
  'C18': ('', 'Also: a header / parameter record that is already in its table never gets the result of a may-fail call stored straight into its name or value; the one suppression by name (htp_hook_register) re-checks its premise on every run.'),
  'C19': ('', 'Also: every writable global and function-local static is followed through its aliases (locals, parameters, record fields), whether it escapes as a call argument or by assignment.'),
